@@ -95,7 +95,9 @@ def instances(tier, seed):
         if CHECKERS[c] == "nohook" and h:
             continue
         for o in range(len(ORDERS)):
-            g = "core" if (tier == "thorough" or rng.random() < 0.05) else "ext"
+            # every instance is ~4200 two-run histories of real imports: a seeded part must be
+            # exhausted (core), the rest is explored as far as the soft budget allows (ext)
+            g = "core" if rng.random() < (0.3 if tier == "thorough" else 0.05) else "ext"
             out.append((g, dict(kind="history", run1=[h, c, o], nruns=2, env1=rng.choice([0, 0, 1, 2]))))
             if tier == "thorough" and rng.random() < 0.15:
                 # three runs: explored as far as the budget allows (about a million histories each)
@@ -104,7 +106,7 @@ def instances(tier, seed):
     return out
 
 
-BOUNDS = dict(run_environment="every run is additionally normal / with bytecode writing off (python -B) / with JAXTYPING_DISABLE=1 (solver-branched)", history="2 runs over one cache directory (thorough: 3 runs for a seeded subset, within the time budget); run 1 fixed per instance (8 hook sets x {typeguard, beartype, None, no hook} x 7 import orders); every later run: solver-branched choice of hook set, checker, import order and an optional source edit of one module (size-changing, or same size with a different restored timestamp)",
+BOUNDS = dict(run_environment="every run is additionally normal / with bytecode writing off (python -B) / with JAXTYPING_DISABLE=1 (solver-branched)", history="2 runs over one cache directory (thorough: 3 runs for a seeded subset, within the time budget); a seeded 5 % (thorough 30 %) of the run-1 configurations must be exhausted, the others are explored within the soft budget (instances_skipped_soft_budget); run 1 fixed per instance (8 hook sets x {typeguard, beartype, None, no hook} x 7 import orders); every later run: solver-branched choice of hook set, checker, import order and an optional source edit of one module (size-changing, or same size with a different restored timestamp)",
               forest="wh (imports wp while being executed), wp, wq, wbad (imports wq, then raises ImportError), wsyn (does not compile)",
               tags="the three checker strings + None: pairwise distinct cache tags, distinct from CPython's")
 STUBS = ["a 'run' is simulated in-process: module table purged, hooks removed, importlib._bootstrap_external.cache_from_source reset to the pristine function (the state of a fresh interpreter); replays use real subprocesses"]
